@@ -98,6 +98,8 @@ func classify(err error) string {
 		return "verify.ptype"
 	case strings.Contains(s, "invalid signature"):
 		return "verify.sig"
+	case strings.Contains(s, "wrong validator for slot"):
+		return "verify.slot"
 	case strings.Contains(s, "insufficient voting power"):
 		return "verify.power"
 	}
@@ -437,6 +439,16 @@ func (x *impl) candidate(muts []string) *types.Block {
 				j := (i + 1) % len(pre)
 				pre[i], pre[j] = pre[j], pre[i]
 			}
+		case "slotidx": // a genuine precommit whose index field names another validator (the sign bytes do not cover it)
+			if i := slot(arg); i >= 0 && pre[i] != nil {
+				pre[i] = copyVote(pre[i])
+				pre[i].ValidatorIndex = (i + 1) % (len(pre) + 1)
+			}
+		case "slotaddr": // ... or whose address field does
+			if i := slot(arg); i >= 0 && pre[i] != nil {
+				pre[i] = copyVote(pre[i])
+				pre[i].ValidatorAddress = []byte("somebody-else")
+			}
 		case "h1vote": // a precommit in the commit of the first block
 			pre = append(pre, sign(0, 0, 0, 0, types.VoteTypePrecommit, other, false))
 		case "rehash": // what a Byzantine proposer recomputes
@@ -582,7 +594,7 @@ func main() {
 	header := []string{"chainid", "height+", "height-", "numtxs", "lbid-hash", "lbid-total", "lbid-phash", "datahash", "data", "data-rehash",
 		"apphash", "receiptshash", "lchash", "valhash", "valhash-lastvals", "proposer-stranger", "proposer-other"}
 	commitM := []string{"drop", "dropmany", "allnil", "dup", "foreignheight", "foreignround", "allround", "badsig", "wrongkey", "nilblock", "type",
-		"otherblock", "allother", "fill", "extranil", "extravote", "fewer", "noslots", "cbid-zero", "cbid-other", "swap", "h1vote"}
+		"otherblock", "allother", "fill", "extranil", "extravote", "fewer", "noslots", "cbid-zero", "cbid-other", "swap", "slotidx", "slotaddr", "h1vote"}
 	seqs := r.Scale(14, 160)
 	for q := 0; q < seqs; q++ {
 		n := R.Range(1, 7)
